@@ -537,6 +537,7 @@ class Run:
         self.responses = {}        # jar -> list of canonical "= …" payloads
         self.pending = []          # tasks spawned and not yet reported done: (jar, n, task, actor, stub-log position)
         self.graphs_seen = set()
+        self.used = {}             # jar -> account names it used (canonical), for the `alone` monitor
         self.stats = {"requests": 0, "status": {}, "tasks": 0, "models": 0, "graphs": 0}
 
     def emit(self, line):
@@ -589,6 +590,12 @@ class Run:
             else:
                 jar.ident = "?"
         actor = ident_before if ident_before is not None else (jar.ident if path == "/adf/add" else None)
+        mine = self.used.setdefault(jname, set())
+        if path in ("/users/register", "/users/login", "/users/update") and "username" in dict(fields or []) \
+                and "password" in dict(fields or []) and "raw" not in dict(fields or []):
+            mine.add(dict(fields)["username"])
+        if path == "/adf/add" and ev == "set" and ident_before is None and jar.ident:
+            mine.add(self.names.ren(jar.ident))
         body = canon_body(status, data, self.detail, self.names.ren)
         payload = "%d %s %s" % (status, ev, body)
         self.emit("= " + payload)
@@ -717,7 +724,13 @@ class Run:
         self.emit("dbcheck users=%s problems=%s" % (",".join(users) or "-", cj(probs)))
         self.emit("~ ok")
 
+    def disjoint(self, jname):
+        mine = self.used.get(jname, set())
+        return not any(mine & v for k, v in self.used.items() if k != jname)
+
     def alone(self, jname, forced=False):
+        if not forced and not self.disjoint(jname):
+            return
         digests = ",".join(fnv64(p) for p in self.responses.get(jname, []))
         self.emit("alone%s %s" % ("!" if forced else "", jname))
         self.emit("~ " + (digests or "-"))
